@@ -20,7 +20,7 @@ use tokio_util::codec::{Decoder as _, Encoder as _};
 use tracing::{error, trace};
 
 use super::{
-    codec::Codec,
+    codec::{Codec, ResponseContext},
     decoder::MAX_BUFFER_SIZE,
     payload::{Payload, PayloadSender, PayloadStatus},
     timer::TimerState,
@@ -171,6 +171,9 @@ pin_project! {
         // true when current request uses chunked transfer encoding (drainable when payload is dropped)
         payload_drainable: bool,
         messages: VecDeque<DispatcherMessage>,
+        // codec context of the request currently being handled, restored before its response is
+        // encoded (requests decoded in the meantime overwrite the codec's own copy)
+        response_ctx: Option<ResponseContext>,
 
         head_timer: TimerState,
         ka_timer: TimerState,
@@ -186,7 +189,7 @@ pin_project! {
 }
 
 enum DispatcherMessage {
-    Item(Request),
+    Item(Request, ResponseContext),
     Upgrade(Request),
     Error(Response<()>),
 }
@@ -286,6 +289,7 @@ where
                     payload: None,
                     payload_drainable: false,
                     messages: VecDeque::new(),
+                    response_ctx: None,
 
                     head_timer: TimerState::new(config.client_request_deadline().is_some()),
                     ka_timer: TimerState::new(config.keep_alive().enabled()),
@@ -443,6 +447,10 @@ where
 
         let size = body.size();
 
+        if let Some(ctx) = this.response_ctx.take() {
+            this.codec.set_response_context(ctx);
+        }
+
         this.codec
             .encode(Message::Item((res, size)), this.write_buf)
             .map_err(|err| {
@@ -589,7 +597,9 @@ where
                 // no future is in InnerDispatcher state; pop next message
                 StateProj::None => match this.messages.pop_front() {
                     // handle request message
-                    Some(DispatcherMessage::Item(req)) => {
+                    Some(DispatcherMessage::Item(req, ctx)) => {
+                        *this.response_ctx = Some(ctx);
+
                         // Handle `EXPECT: 100-Continue` header
                         if req.head().expect() {
                             // set InnerDispatcher state and continue loop to poll it
@@ -940,12 +950,15 @@ where
                                 }
                             }
 
+                            let ctx = this.codec.response_context();
+
                             // handle request early when no future in InnerDispatcher state.
                             if this.state.is_none() {
+                                *this.response_ctx = Some(ctx);
                                 self.as_mut().handle_request(req, cx)?;
                                 this = self.as_mut().project();
                             } else {
-                                this.messages.push_back(DispatcherMessage::Item(req));
+                                this.messages.push_back(DispatcherMessage::Item(req, ctx));
                             }
                         }
 
